@@ -38,6 +38,7 @@ type StmtSite struct {
 
 // Vocab is the vocabulary extracted from the repository: who plays which role.
 type Vocab struct {
+	covered map[*ssa.Function]bool // functions whose statements belong to a storage interface method
 	P *Program
 
 	Routes     []*Route
@@ -543,6 +544,12 @@ func (v *Vocab) stmtsIn(fn *ssa.Function, method string) []*StmtSite {
 			return
 		}
 		seen[f] = true
+		if v.covered == nil {
+			v.covered = map[*ssa.Function]bool{}
+		}
+		for _, g := range WithClosures(f) {
+			v.covered[g] = true
+		}
 		for _, ci := range Calls(f) {
 			d := p.Describe(ci)
 			if d.Static == nil {
@@ -717,4 +724,57 @@ func (v *Vocab) loadSchema() {
 		return
 	}
 	v.Schema = sc
+}
+
+// StrayStmt is an SQL statement executed outside the storage-interface methods (start-up code, helpers
+// that no interface method reaches, other packages).
+type StrayStmt struct {
+	Fn   *ssa.Function
+	Exec ssa.CallInstruction
+	SQL  *SQLStmt // nil when the text is not a constant or does not parse
+	Why  string
+}
+
+// StrayStatements lists the database/sql statements of the module that are not part of a storage
+// interface method (the statements the role vocabulary does not cover).
+func (v *Vocab) StrayStatements() []*StrayStmt {
+	p := v.P
+	var out []*StrayStmt
+	for _, f := range p.Funcs {
+		if v.covered[f] || f.Blocks == nil {
+			continue
+		}
+		top := EnclosingTop(f)
+		if top.Pkg != nil && p.Rel(top.Pkg.Pkg.Path()) == "testutils" {
+			continue
+		}
+		for _, ci := range Calls(f) {
+			d := p.Describe(ci)
+			if d.Static == nil || !strings.HasPrefix(d.Name, "database/sql.(*") || !sqlExecNames[d.Static.Name()] {
+				continue
+			}
+			recvName := d.Name[len("database/sql.(*"):strings.Index(d.Name, ")")]
+			if recvName != "DB" && recvName != "Tx" && recvName != "Conn" {
+				continue // a prepared statement is reported at its Prepare
+			}
+			args := d.Args
+			if strings.HasSuffix(d.Static.Name(), "Context") && len(args) > 0 {
+				args = args[1:]
+			}
+			if len(args) < 1 {
+				continue
+			}
+			st := &StrayStmt{Fn: f, Exec: ci}
+			parts, _ := constStringParts(args[0])
+			if len(parts) == 0 {
+				st.Why = "SQL text is not a constant"
+			} else if sql, err := ParseSQL(strings.Join(parts, " ")); err != nil {
+				st.Why = err.Error()
+			} else {
+				st.SQL = sql
+			}
+			out = append(out, st)
+		}
+	}
+	return out
 }
